@@ -32,7 +32,7 @@ APIS = ["BoolCFGLM(cfg,'earley').p_next(context).keys()", "BoolCFGLM(cfg,'cky').
 
 
 def plan(tier, seed):
-    return common.plan_shards(tier, seed, n_quick=110, n_thorough=900, budget_quick=35, budget_thorough=420, ties=True)
+    return common.plan_shards(tier, seed, n_quick=160, n_thorough=900, budget_quick=35, budget_thorough=420, ties=True)
 
 
 def gates(tier):
@@ -95,7 +95,7 @@ def run_case(case, ctx):
     ctx.shape["ctx:viable"] += len(contexts) - nv
     ctx.shape["ctx:has_eos"] += sum(1 for c in contexts if EOS in c)
     ctx.sample({"case": case, "classes": cls, "contexts": len(contexts), "nonviable": nv,
-                "example": {"context": list(contexts[-1]), "mask": sorted(want[contexts[-1]])}})
+                "example": {"context": list(contexts[-1]), "mask": sorted(want[contexts[-1]], key=repr)}})
     ok, cfg = ctx.call(APIS[0], case, lib.build_cfg, g, R)
     if not ok:
         return
@@ -125,7 +125,7 @@ def run_case(case, ctx):
             else:
                 mech = f"{api}/misses-viable-token"
             ctx.check(api, good, mech, cc, {"context": list(c), "have": sorted(have, key=repr) if have is not None else repr(p)[:200],
-                                            "want": sorted(want[c]), "context_viable": viable[c]})
+                                            "want": sorted(want[c], key=repr), "context_viable": viable[c]})
 
 
 def run(spec, ctx):
